@@ -46,6 +46,8 @@ def gen_base(rng):
         r = sc["response"]
         if r["framing"] == "chunked" and r.get("chunks"):
             r["chunks"] = [min(c, 400) for c in r["chunks"]]
+            if rng.random() < 0.3:
+                r["chunk_pad"] = rng.choice([2, 4])  # "001b": leading zeros are legal
         built = B.build(r)
         if len(built["wire"]) <= 3000:
             sc["seg"] = c12.gen_seg(rng, built)
@@ -74,6 +76,11 @@ def cases(seed, k, tier):
         sc = copy.deepcopy(base)
         sc["fault"] = {"kind": "corrupt", "at": a + rng.randrange(ndig), "byte": rng.choice([ord("Z"), ord("g"), 0x00, ord("Z"), ord("-"), ord("+"), ord("_"), ord(" ")]), "where": "size_line"}
         yield sc
+        if wire[a + ndig : a + ndig + 2] == b"\r\n":
+            # the CR that ends a size line without extension turns into a letter: "1bZ<LF>" is no chunk-size line
+            sc = copy.deepcopy(base)
+            sc["fault"] = {"kind": "corrupt", "at": a + ndig, "byte": rng.choice([ord("Z"), ord("g"), 0xFF]), "where": "size_line_end"}
+            yield sc
     if built["coded"]:
         body_lo = hl
         for _ in range(6):
@@ -199,6 +206,11 @@ def classify(sc, built_full):
             return "must_raise", "cl", data, end
         if framing == "chunked":
             if c <= built_full["last_chunk_line"]:
+                for a, b_ in built_full["size_lines"]:
+                    if a < c <= a + _size_digits(wire, a) and set(wire[a:c]) == {ord("0")}:
+                        # the digits that arrived of this (zero-padded) size line read as a zero-size chunk without its CRLF:
+                        # the same bytes as zone (i), a last-chunk line cut before its line end
+                        return "either", "zero_prefix_of_size_line", data, end
                 return "must_raise", "chunked", data, end
             return "either", "last_chunk_zone", data, end
         # close-delimited
@@ -221,6 +233,8 @@ def classify(sc, built_full):
         else:
             b[f["at"]] ^= f["xor"]
         end = "eof" if framing == "close" else "keep_then_eof"
+        if f["where"] == "size_line_end":
+            return "must_raise", "corrupt_size_line", bytes(b), end
         if f["where"] == "size_line":
             hit = [a for a, b_ in built_full["size_lines"] if a <= f["at"] < a + _size_digits(wire, a)]
             if not hit or chr(b[f["at"]]) in "0123456789abcdefABCDEF":
